@@ -49,6 +49,9 @@ def case_strategy(draw: Any) -> Dict[str, Any]:
         "tail": draw(st.sampled_from(["none", "none", "empty", "data"])),
         # serve() called without a shutdown_trigger (only meaningful with max_requests)
         "no_callable": draw(st.booleans()),
+        # what the lifespan application does once it has said lifespan.shutdown.complete:
+        # return, or stay (frameworks that loop on receive()): serve() returns all the same
+        "lifespan_after": draw(st.sampled_from(["return", "return", "recv", "sleep"])),
     }
 
 
@@ -71,7 +74,9 @@ def programs_for(case: Dict[str, Any]) -> Dict[str, list]:
     return {
         "lifespan": [["recv"], ["send", {"type": "lifespan.startup.complete"}], ["recv"],
                      ["sleep", case["lifespan_delay"]],
-                     ["send", {"type": "lifespan.shutdown.complete"}]],
+                     ["send", {"type": "lifespan.shutdown.complete"}]]
+                    + {"recv": [["recv"]], "sleep": [["sleep", 1e7]]}.get(
+                        case.get("lifespan_after", "return"), []),
         "/quick": [["recv_all"], ok],
         "/short": slow(1.0 + g / 2),
         "/shorter": slow(1.0 + g / 4),
